@@ -11,9 +11,13 @@ import Operon.Gen.MitoCaps
     schemas
     arm <slot> reg <name> <body> <req> <caps> <raises> [style]   -- script slot <slot>: registry operations performed
     arm <slot> unreg <name>                                      --   each time the slot fires (appended per line)
-    met <mode: long|ros|forced-oxid|forced-other|auto> <callee: name:<n> | notname | notcall>
+    body <body> @s1,s2                               -- the callable <body> uses the registration API whenever it runs:
+                                                     --   the operations the slots hold NOW
+    met <mode: long|ros|forced-oxid|forced-other|auto|digest> <callee: name:<n> | notname | notcall>
         <args: 1 | 0 | n:<name>> <recorded: oxid|other> [@s1,s2]     -- slots fired by the argument expressions
     call <name> [@s1,s2]                             -- slots fired by evaluating `**call.arguments`
+    callx <name> <k> [@s1,s2]                        -- SEARCH ONLY: a call object whose `name` is a property firing the
+                                                     --   slots at its k-th read; answered `skip`, as is every later line
     loop <maxIter> <auto 0/1> [idmode] <rounds: r1;r2;...  each r = e1,e2 or - ; e = ^slot (provider fires the slot
         before answering) | name | name@s1@s2>
   observation: result + execution log (body ids) -/
@@ -22,6 +26,7 @@ open Operon Operon.Proto Operon.MitoTools
 structure DSt where
   st : St := {}
   slots : List (Nat × List RegOp) := []
+  skip : Bool := false      -- after a search-only line the model no longer follows the registry: lines answer `skip`
 
 def capsOf (s : String) : Option (List Cap) :=
   if s = "none" then none else if s = "-" then some [] else some ((s.splitOn ",").map natD)
@@ -67,6 +72,7 @@ def metLine (d : DSt) (mode callee a recorded : String) (ops : List RegOp) : DSt
     | _ => false
   let p : Pre := match mode with
     | "long" => .tooLong | "ros" => .rosLatched | "forced-oxid" => .oxidative | "forced-other" => .otherPathway evalArgs
+    | "digest" => .otherPathway evalArgs             -- digest_glucose: the legacy wrapper forces the math pathway
     | _ => if recorded = "oxid" then .oxidative else .otherPathway evalArgs   -- auto: pathway recorded from the real run
   let argsOk : Bool := if a.startsWith "n:" then Operon.Gen.MitoCaps.safeCall1.contains (a.drop 2).toString else boolOf a
   let (s', r) := metabolize g d.st p c argsOk ops
@@ -81,7 +87,9 @@ def callLine (d : DSt) (n : String) (ops : List RegOp) : DSt × String :=
 
 def step (d : DSt) (toks : List String) : DSt × String :=
   let g := Operon.Gen.MitoCaps.guards
+  if d.skip && toks.head? != some "cfg" then (d, "skip") else
   match toks with
+  | "callx" :: _ => ({ d with skip := true }, "skip")   -- search-only (see harness): not modelled
   | ["cfg", al] => ({ st := init (capsOf al) }, "ok")
   | ["cfg", al, _container] => ({ st := init (capsOf al) }, "ok")   -- container type of the ceiling: irrelevant
   | ["setal", al] => ({ d with st := { d.st with allowed := capsOf al } }, "ok")
@@ -93,6 +101,8 @@ def step (d : DSt) (toks : List String) : DSt × String :=
   | ["unreg", n] => ({ d with st := { d.st with reg := d.st.reg.erase n } }, "ok")
   | ["redecl", n, req, caps] =>
     ({ d with st := { d.st with reg := d.st.reg.redeclare n (capsOf req) (capsOf caps) } }, "ok")
+  | ["body", b, spec] =>                           -- from now on the callable <b> fires these slots whenever it runs
+    ({ d with st := { d.st with effects := d.st.effects ++ [(natD b, slotSpec d spec)] } }, "ok")
   | ["schemas"] => (d, "ok")                       -- export_tool_schemas / list_tools: must not change anything
   | "arm" :: slot :: rest =>
     match parseRegOp rest with
